@@ -404,6 +404,26 @@ def index_ok(repo: Repo, world: World, f: Func, g: t.Any, n: ast.Subscript, gram
     b = unparse(base)
     bp = prov_text(f, base, n)
     okc, idx = repo.try_fold(n.slice, f.mod)
+    # a local whose every binding is a tuple display (or a package call annotated to return a fixed-size tuple) long
+    # enough, and that is never changed in place
+    if isinstance(base, ast.Name) and okc and isinstance(idx, int) and not isinstance(idx, bool) and base.id not in f.params:
+        sizes: t.List[t.Optional[int]] = []
+        touched = False
+        for m in body_nodes(f.node):
+            if isinstance(m, ast.Assign):
+                for tg in m.targets:
+                    if isinstance(tg, ast.Name) and tg.id == base.id:
+                        v = m.value
+                        if isinstance(v, ast.Tuple) and not any(isinstance(x, ast.Starred) for x in v.elts):
+                            sizes.append(len(v.elts))
+                        else:
+                            sizes.append(None)
+                    elif any(isinstance(x, ast.Name) and x.id == base.id and isinstance(x.ctx, (ast.Store, ast.Del)) for x in ast.walk(tg)):
+                        touched = True
+            elif isinstance(m, (ast.AugAssign, ast.AnnAssign, ast.For, ast.With, ast.NamedExpr)) and any(isinstance(x, ast.Name) and x.id == base.id and isinstance(x.ctx, (ast.Store, ast.Del)) for x in ast.walk(m.target if hasattr(m, "target") else m)):
+                touched = True
+        if sizes and not touched and all(k is not None and -k <= idx < k for k in sizes):
+            return True, f"{base.id} is a {min(t.cast(t.List[int], sizes))}-tuple display on every path"
     # x[i] where len(x) == k is known (dominating guard, guard through a flag variable, or short-circuit operand)
     for c, pol in atoms_at(f, n):
         if isinstance(c, ast.Compare) and len(c.ops) == 1:
